@@ -73,7 +73,7 @@ def standalone_case(cfg, case, io):
 
 
 def run(chk, replay=None):
-    proof = proof_check_streams(PID, "C20Devices")
+    proof = proof_check_streams(PID, "C20Devices", extra=("C20Wiring",))
     drv = build_driver(); exe = build_harness("devices"); cfg = harness_config(exe)
     if replay:
         r = json.load(open(replay)); c = r["case"]
